@@ -25,7 +25,26 @@ pub trait PlayerRecurse {
 }
 pub trait ExternalInfo {
     fn update_cum_strat(&mut self);
-}"""),
+}
+pub trait MutexPlayerRecurse {
+    fn update_cum_strat(&self, prob: f64);
+}
+// R5: std::sync::Mutex as far as update_cum_strat uses it: lock() gives exclusive access to the
+// protected value (TYPE-SUBST: the MutexGuard is seen as the `&mut` it derefs to; poisoning -- the Err
+// case -- is not modelled: assumed Ok; blocking is not modelled)
+#[derive(Debug)]
+pub struct PoisonError { }
+#[verifier::external_body]
+#[verifier::reject_recursive_types(T)]
+pub struct Mutex<T> { t: core::marker::PhantomData<T> }
+impl<T> Mutex<T> {
+    pub uninterp spec fn content(&self) -> T;
+    #[verifier::external_body]
+    pub fn lock(&self) -> (r: Result<&mut T, PoisonError>)
+        ensures r is Ok, *(r->Ok_0) == self.content(),
+    { unimplemented!() }
+}
+#[verifier::external_body] pub struct AtomicF64 { }"""),
         dict(file="src/solve/data.rs", path="struct RegretInfoset"),
         dict(file="src/solve/vanilla.rs", path="impl PlayerRecurse for RegretInfoset", members=[
             dict(path="fn update_cum_strat", obligation="C08.V.update_cum_strat.vanilla", n_loops=1,
@@ -58,6 +77,28 @@ let ghost n = self.reg.cum_strat@.len();
 let ghost st = self.reg.strat@;
 let ghost c0 = self.reg.cum_strat@;""",
                  loops={0: loop("rv(c0[i]) + rv(st[i])")}),
+        ]),
+        dict(file="src/solve/vanilla.rs", path="struct MutexRegretInfoset"),
+        dict(file="src/solve/vanilla.rs", path="impl MutexPlayerRecurse for MutexRegretInfoset", members=[
+            dict(path="fn update_cum_strat", obligation="C08.V.update_cum_strat.mutex", n_loops=1,
+                 entry="""broadcast use fl; broadcast use ideal;
+proof { ax_obeys(); ax_rv_lits(); assume(self.strat@.len() == self.cum_strat.content()@.len()); }
+let ghost n = self.strat@.len();
+let ghost st = self.strat@;
+let ghost c0 = self.cum_strat.content()@;""",
+                 loops={0: dict(kind="for", binder="it",
+                                head="""invariant
+    it.snapshot@.remaining().len() == n,
+    0 <= it.index@ <= n,
+    zip_iter_snd(it.snapshot@).remaining().len() == n,
+    forall|i: int| 0 <= i < n ==> (it.snapshot@.remaining()[i]).1 == #[trigger] zip_iter_snd(it.snapshot@).remaining()[i],
+    forall|i: int| 0 <= i < n ==> *(#[trigger] it.snapshot@.remaining()[i]).0 == st[i] && *(it.snapshot@.remaining()[i]).1 == c0[i],
+    forall|i: int| 0 <= i < it.index@ ==> rv(*final((#[trigger] it.snapshot@.remaining()[i]).1)) == rv(c0[i]) + rv(prob) * rv(st[i]),
+ensures
+    // (the protected vector is only reachable through the guard: the obligation is on the final values
+    // of the elements the loop borrowed) every entry of the locked average strategy grows by prob x sigma_i
+    forall|i: int| 0 <= i < n ==> rv(*final(#[trigger] zip_iter_snd(it.snapshot@).remaining()[i])) == rv(c0[i]) + rv(prob) * rv(st[i]), // @ob C08.V.update_cum_strat.mutex""",
+                                body_start="broadcast use fl; broadcast use ideal;\nproof { ax_obeys(); ax_rv_lits(); }")}),
         ]),
     ],
 )
